@@ -23,6 +23,7 @@ import (
 	"math/big"
 	"net/http/httptest"
 	"os"
+	"runtime"
 	"sort"
 	"strconv"
 	"strings"
@@ -442,6 +443,7 @@ type vCase struct {
 	exitC    chan error
 	cancel   context.CancelFunc
 	srv      *httptest.Server
+	rs       *rpc.Server
 	chain    vaa.ChainID
 	dev      bool
 	wait     bool
@@ -454,6 +456,7 @@ type vCase struct {
 	gapF     uint64
 	gapS     uint64
 	lat      uint64
+	flushed  bool // no poller iteration that read "enabled" can still be in flight
 }
 
 var vCaseSeq int64
@@ -524,6 +527,7 @@ func (c *vCase) start(gsErr bool) bool {
 	c.node = n
 	c.setHeads(c.lat)
 	rs := rpc.NewServer()
+	c.rs = rs
 	if err := rs.RegisterName("eth", &vEth{n}); err != nil {
 		c.t.Fatal(err)
 	}
@@ -590,6 +594,7 @@ func (c *vCase) start(gsErr bool) bool {
 	n.mu.Unlock()
 	sort.Strings(tags)
 	c.tag = vjoin(tags, ",")
+	c.flushed = true // nothing has enabled the poller yet
 	c.lastPub = c.watched()
 	return true
 }
@@ -597,8 +602,17 @@ func (c *vCase) start(gsErr bool) bool {
 func (c *vCase) stop() {
 	c.g.w.Flush() // a crash of the process under test must not lose the cases written so far
 	c.cancel()
+	// Run never closes the RPC client it dialled; do it here so that goroutines do not pile up over hundreds of cases
+	if c.w != nil && c.w.ethConn != nil {
+		if ec, ok := c.w.ethConn.Connector.(*EthereumConnector); ok && ec.rawClient != nil {
+			ec.rawClient.Close()
+		}
+	}
 	c.srv.CloseClientConnections()
 	c.srv.Close()
+	if c.rs != nil {
+		c.rs.Stop()
+	}
 }
 
 func (c *vCase) pendingSnapshot() (map[pendingKey]*pendingMessage, bool) {
@@ -824,7 +838,19 @@ func (c *vCase) settle() {
 		}
 		_, en := c.pendingSnapshot()
 		w := c.watched()
-		if !en || w <= c.lastPub {
+		if !en {
+			// The poller reads its enabled flag and polls afterwards: an iteration that read "enabled" just before
+			// the watcher disabled it may still be in flight. Wait until the poller goroutine is back in its own
+			// select (every later iteration reads "disabled"), otherwise a head change in the next op could be
+			// published - or not - depending on scheduling.
+			if !c.flushed {
+				c.waitPollerParked()
+				c.flushed = c.stuck == ""
+			}
+			return
+		}
+		c.flushed = false
+		if w <= c.lastPub {
 			return
 		}
 		want := strconv.FormatUint(w, 10)
@@ -834,6 +860,50 @@ func (c *vCase) settle() {
 			return
 		}
 		c.lastPub = w
+	}
+}
+
+// pollerParked reports whether this case's block poller goroutine is idle in the select of BlockPollConnector.run
+// (or has ended). Goroutine states are read from runtime.Stack: the first frame of an idle poller is run itself,
+// while a poller with a request in flight is somewhere below pollBlocks.
+func (c *vCase) pollerParked() bool {
+	if c.w.ethConn == nil {
+		return true
+	}
+	ptr := fmt.Sprintf("%p", c.w.ethConn)
+	vDumps++
+	buf := vStackBuf[:runtime.Stack(vStackBuf, true)]
+	const marker = "pkg/ethereum.(*BlockPollConnector).run("
+	for _, g := range strings.Split(string(buf), "\n\n") {
+		i := strings.Index(g, marker)
+		if i < 0 {
+			continue
+		}
+		arg := g[i+len(marker):]
+		if j := strings.IndexAny(arg, ",)"); j >= 0 {
+			arg = arg[:j]
+		}
+		if strings.TrimSuffix(arg, "?") != ptr {
+			continue // the poller of another (ending) case
+		}
+		lines := strings.Split(g, "\n")
+		return len(lines) >= 2 && strings.Contains(lines[1], marker)
+	}
+	return true // no such goroutine any more
+}
+
+var vStackBuf = make([]byte, 4<<20)
+var vFlushes, vDumps int
+
+func (c *vCase) waitPollerParked() {
+	vFlushes++
+	deadline := time.Now().Add(vWatchdog)
+	for !c.pollerParked() {
+		if time.Now().After(deadline) {
+			c.stuck = "poller-busy"
+			return
+		}
+		time.Sleep(50 * time.Microsecond)
 	}
 }
 
@@ -854,6 +924,7 @@ type vLogSpec struct {
 }
 
 func (c *vCase) opLog(l vLogSpec, pick func(vTxRef) vRcAns) {
+	c.flushed = false // the insertion enables the poller
 	mark := c.callMark()
 	ans := c.scriptAnswers([]vTxRef{{l.tx, l.bh, l.bn}}, pick)
 	data := vPackData(l.m)
